@@ -35,6 +35,10 @@ var MasterKey = bytes.Repeat([]byte{7}, 32)
 
 // Quiet silences logrus (Acra logs a lot on error paths).
 func Quiet() {
+	if os.Getenv("VERIF_LOGS") != "" { // debugging aid: Acra's own log lines on stderr
+		logrus.SetLevel(logrus.DebugLevel)
+		return
+	}
 	logrus.SetOutput(io.Discard)
 	logrus.SetLevel(logrus.PanicLevel)
 }
